@@ -1,0 +1,10 @@
+//go:build verif
+
+package utls
+
+// Machine-checked contracts (read by /verif/engine; comment-only, compiled only with -tags verif).
+//
+// ---- guarded-by declarations (C20) ----
+//@ guarded uTLSHTTPRoundTripperImpl.connectWithH1 by accessConnectWithH1
+//@ guarded uTLSHTTPRoundTripperImpl.pendingConn by accessDialingConnection
+//@ guarded unclaimedConnection.claimed by access
